@@ -34,6 +34,9 @@ func NewResolver(db shared.DBNodeMap, c Config) Resolver {
 // Deprecated: Deprecated in favor of using Resolve function directly
 func (r Resolver) Resolve() error {
 	var err error
+	if err = checkDepth(r.config.MaxDepth, r.db); err != nil {
+		return err
+	}
 	for name := range r.db {
 		if err = r.resolveNode(name, 0); err != nil {
 			return err
@@ -102,10 +105,51 @@ func resolveNode(maxDepth int, db shared.DBNodeMap, name string, level int) erro
 }
 
 func Resolve(c Config, db shared.DBNodeMap) (shared.DBNodeMap, error) {
+	if err := checkDepth(c.MaxDepth, db); err != nil {
+		return db, err
+	}
 	for name := range db {
 		if err := resolveNode(c.MaxDepth, db, name, 0); err != nil {
 			return db, err
 		}
 	}
 	return db, nil
+}
+
+// checkDepth fails when a chain of references starting at any node of the unresolved
+// database is maxDepth or more references long, or when the references are cyclic.
+// It looks at the database before any node is resolved in place, so the outcome does
+// not depend on the order in which the nodes are visited.
+func checkDepth(maxDepth int, db shared.DBNodeMap) error {
+	const visiting = -1
+	chain := make(map[string]int, len(db))
+	var chainLength func(name string) (int, bool)
+	chainLength = func(name string) (int, bool) {
+		node, exists := db[name]
+		if !exists {
+			return 0, true
+		}
+		if length, seen := chain[name]; seen {
+			return length, length != visiting
+		}
+		chain[name] = visiting
+		longest := 0
+		for _, e := range node.Elements {
+			length, ok := chainLength(e.Name)
+			if !ok {
+				return 0, false
+			}
+			if length+1 > longest {
+				longest = length + 1
+			}
+		}
+		chain[name] = longest
+		return longest, true
+	}
+	for name := range db {
+		if length, ok := chainLength(name); !ok || length >= maxDepth {
+			return fmt.Errorf("maximum resolution depth reached")
+		}
+	}
+	return nil
 }
